@@ -170,7 +170,10 @@ pub fn sweep(space: &Space, mode: Mode, max_len: usize) -> Tally {
                                         (Out::NoMatch, Out::NoMatch) => None,
                                         (Out::Match(g), Out::Match(h)) => {
                                             t.nontrivial += 1;
-                                            if h.len() != g.len() + k {
+                                            if g.len() != facts.n_groups + 1 {
+                                                // the original pattern already reports a wrong number of groups: C16's subject
+                                                None
+                                            } else if h.len() != g.len() + k {
                                                 Some(format!("{} groups reported, expected {}", h.len(), g.len() + k))
                                             } else {
                                                 let mut p = None;
